@@ -121,28 +121,33 @@ theorem flushAll_fresh (wave : Nat) (rs : List (Nat × List Res)) (bs : List Bat
 
 /-! ### inversion of `step`, one lemma per label -/
 
-theorem step_go {c : Cfg} {s s' : St} {t : Nat} (h : step c s (.go t) = some s') :
+theorem step_go {c : Cfg} {s s' : St} {t : Nat} {dep : Option Nat} (h : step c s (.go t dep) = some s') :
     s.crashed = false ∧ s.phase = .exec ∧ t = s.next ∧
-    s' = { s with next := s.next + 1, running := ⟨t, []⟩ :: s.running } := by
+    s' = { s with next := s.next + 1, running := ⟨t, []⟩ :: s.running } ∧ depOK s dep = true := by
   simp only [step] at h
   split at h
   · cases h
   · rename_i hc
-    simp at hc
-    simp at h
-    exact ⟨hc.1.1, hc.1.2, hc.2, h.symm⟩
+    split at h
+    · cases h
+    · rename_i hd
+      simp at hc hd
+      exact ⟨hc.1.1, hc.1.2, hc.2, (Option.some.inj h).symm, hd⟩
 
-theorem step_batch {c : Cfg} {s s' : St} {k item p : Nat} (h : step c s (.batch k item p) = some s') :
+theorem step_batch {c : Cfg} {s s' : St} {k item p : Nat} {dep : Option Nat} (h : step c s (.batch k item p dep) = some s') :
     s.crashed = false ∧ s.phase = .exec ∧ p = s.next ∧
     s' = { s with next := s.next + 1, batches := addToBatch s.batches k item p,
-                  registered := s.registered ++ [(k, item, p)] } := by
+                  registered := s.registered ++ [(k, item, p)],
+                  regWave := (p, k, s.wave) :: s.regWave } ∧ depOK s dep = true := by
   simp only [step] at h
   split at h
   · cases h
   · rename_i hc
-    simp at hc
-    simp at h
-    exact ⟨hc.1.1, hc.1.2, hc.2, h.symm⟩
+    split at h
+    · cases h
+    · rename_i hd
+      simp at hc hd
+      exact ⟨hc.1.1, hc.1.2, hc.2, (Option.some.inj h).symm, hd⟩
 
 theorem step_chain {c : Cfg} {s s' : St} {t : Nat} {ps : List Nat} (h : step c s (.chain t ps) = some s') :
     s.crashed = false ∧ s.phase = .exec ∧ t = s.next ∧ (∀ p ∈ ps, p < s.next) ∧
@@ -179,7 +184,7 @@ theorem step_fin {c : Cfg} {s s' : St} {t : Nat} {r : Res} (h : step c s (.fin t
 theorem step_idle {c : Cfg} {s s' : St} (h : step c s .idle = some s') :
     s.crashed = false ∧ s.phase = .exec ∧
     (∃ p, p < s.next ∧ isDelivered s p = false ∧ s.chained.contains p = false) ∧
-    s' = { s with phase := .top, wave := s.wave + 1, progress := false } := by
+    s' = { s with phase := .top, wave := s.wave + 1, progress := false, snap := s.delivered } := by
   simp only [step] at h
   split at h
   · cases h
@@ -428,8 +433,8 @@ theorem finishBatches_eq {s : St} (h : IdsOK s) :
 
 theorem idsOK_step {c : Cfg} {s s' : St} {l : Label} (h : IdsOK s) (hs : step c s l = some s') : IdsOK s' := by
   cases l with
-  | go t =>
-    obtain ⟨_, _, rfl, rfl⟩ := step_go hs
+  | go t dep =>
+    obtain ⟨_, _, rfl, rfl, _⟩ := step_go hs
     intro p
     have := h p
     unfold cnt at this ⊢
@@ -439,8 +444,8 @@ theorem idsOK_step {c : Cfg} {s s' : St} {l : Label} (h : IdsOK s) (hs : step c 
     · have h2 : ¬ s.next = p := fun e => hp e.symm
       simp [h2]
       split at this <;> split <;> omega
-  | batch k item p =>
-    obtain ⟨_, _, rfl, rfl⟩ := step_batch hs
+  | batch k item p dep =>
+    obtain ⟨_, _, rfl, rfl, _⟩ := step_batch hs
     intro x
     have := h x
     unfold cnt at this ⊢
@@ -541,16 +546,16 @@ theorem inv1_init (c : Cfg) : Inv1 c init := by
 
 theorem inv1_step {c : Cfg} {s s' : St} {l : Label} (hi : IdsOK s) (h : Inv1 c s) (hs : step c s l = some s') : Inv1 c s' := by
   cases l with
-  | go t =>
-    obtain ⟨_, hph, rfl, rfl⟩ := step_go hs
+  | go t dep =>
+    obtain ⟨_, hph, rfl, rfl, _⟩ := step_go hs
     refine ⟨h.destFull, ?_, ?_, ?_⟩
     · intro t ht; simp at ht; rcases ht with rfl | ht
       · simp
       · exact h.waits t ht
     · intro hd; simp [hph] at hd
     · intro _ hr; simp [hph] at hr
-  | batch k item p =>
-    obtain ⟨_, hph, rfl, rfl⟩ := step_batch hs
+  | batch k item p dep =>
+    obtain ⟨_, hph, rfl, rfl, _⟩ := step_batch hs
     refine ⟨h.destFull, h.waits, ?_, ?_⟩
     · intro hd; simp [hph] at hd
     · intro _ hr; simp [hph] at hr
@@ -627,11 +632,11 @@ def InvTop (s : St) : Prop :=
 
 theorem invTop_step {c : Cfg} {s s' : St} {l : Label} (hi : IdsOK s) (h : InvTop s) (hs : step c s l = some s') : InvTop s' := by
   cases l with
-  | go t =>
-    obtain ⟨_, hph, rfl, rfl⟩ := step_go hs
+  | go t dep =>
+    obtain ⟨_, hph, rfl, rfl, _⟩ := step_go hs
     intro hp; simp [hph] at hp
-  | batch k item p =>
-    obtain ⟨_, hph, rfl, rfl⟩ := step_batch hs
+  | batch k item p dep =>
+    obtain ⟨_, hph, rfl, rfl, _⟩ := step_batch hs
     intro hp; simp [hph] at hp
   | chain t ps =>
     obtain ⟨_, hph, rfl, hps, rfl⟩ := step_chain hs
@@ -889,11 +894,11 @@ theorem inv2_frame {s s' : St} (h : Inv2 s) (hb : s'.batches = s.batches) (hc : 
 
 theorem inv2_step {c : Cfg} {s s' : St} {l : Label} (hi : IdsOK s) (h : Inv2 s) (hs : step c s l = some s') : Inv2 s' := by
   cases l with
-  | go t =>
-    obtain ⟨_, hph, rfl, rfl⟩ := step_go hs
+  | go t dep =>
+    obtain ⟨_, hph, rfl, rfl, _⟩ := step_go hs
     exact inv2_frame h rfl rfl rfl rfl (by simp [hph]) (by simp [hph])
-  | batch k item p =>
-    obtain ⟨_, hph, rfl, rfl⟩ := step_batch hs
+  | batch k item p dep =>
+    obtain ⟨_, hph, rfl, rfl, _⟩ := step_batch hs
     refine ⟨addToBatch_keys_nodup _ _ _ _ h.keysNodup, addToBatch_lens _ _ _ _ h.lens, h.callWave, ?_, h.callNodup, h.callLens, ?_⟩
     · intro ht; simp [hph] at ht
     · intro _ k'
@@ -1060,11 +1065,11 @@ theorem inv3_took {c : Cfg} {s : St} (hi : IdsOK s) (h : Inv3 c s) {t : Nat} {r 
 
 theorem inv3_step {c : Cfg} {s s' : St} {l : Label} (hi : IdsOK s) (h : Inv3 c s) (hs : step c s l = some s') : Inv3 c s' := by
   cases l with
-  | go t =>
-    obtain ⟨_, hph, rfl, rfl⟩ := step_go hs
+  | go t dep =>
+    obtain ⟨_, hph, rfl, rfl, _⟩ := step_go hs
     exact inv3_frame h rfl rfl rfl rfl (by simp [hph])
-  | batch k item p =>
-    obtain ⟨_, hph, rfl, rfl⟩ := step_batch hs
+  | batch k item p dep =>
+    obtain ⟨_, hph, rfl, rfl, _⟩ := step_batch hs
     exact inv3_frame h rfl rfl rfl rfl (by simp [hph])
   | chain t ps =>
     obtain ⟨_, hph, rfl, hps, rfl⟩ := step_chain hs
